@@ -33,12 +33,12 @@ import (
 type C14Case struct {
 	Client string `json:"client"` // tm | bsc | eth
 	TsSec  int64  `json:"ts_sec"`
-	TsNs   int64  `json:"ts_ns"`   // tm only
-	Period int64  `json:"period"`  // seconds
-	PerNs  int64  `json:"per_ns"`  // tm only: extra nanoseconds of the trusting period
-	Delta  int64  `json:"delta"`   // block time = boundary + Delta client units (tm: ns, bsc/eth: s)
-	SubNs  int64  `json:"sub_ns"`  // bsc/eth: sub-second part of the block time
-	Mode   int    `json:"mode"`    // 0 Status, 1 update gate, 2 receive, 3 acknowledgement, 4 receive-clean
+	TsNs   int64  `json:"ts_ns"`  // tm only
+	Period int64  `json:"period"` // seconds
+	PerNs  int64  `json:"per_ns"` // tm only: extra nanoseconds of the trusting period
+	Delta  int64  `json:"delta"`  // block time = boundary + Delta client units (tm: ns, bsc/eth: s)
+	SubNs  int64  `json:"sub_ns"` // bsc/eth: sub-second part of the block time
+	Mode   int    `json:"mode"`   // 0 Status, 1 update gate, 2 receive, 3 acknowledgement, 4 receive-clean
 }
 
 func genC14(t *rapid.T) C14Case {
@@ -78,8 +78,8 @@ func checkC14(c C14Case, col *Collector) outcome {
 	data := []byte("c14 packet data")
 	ack := []byte("c14 ack")
 	self := ch.Name
-	pkt := packettypes.NewPacket(data, 3, c14Name, self, "", "tibcmock")     // inbound packet
-	out := packettypes.NewPacket(data, 5, self, c14Name, "", "tibcmock")     // our outbound packet, acked by the counterparty
+	pkt := packettypes.NewPacket(data, 3, c14Name, self, "", "tibcmock") // inbound packet
+	out := packettypes.NewPacket(data, 5, self, c14Name, "", "tibcmock") // our outbound packet, acked by the counterparty
 	commitKey := host.PacketCommitmentKey(pkt.SourceChain, pkt.DestinationChain, pkt.Sequence)
 	ackKey := host.PacketAcknowledgementKey(out.SourceChain, out.DestinationChain, out.Sequence)
 	cleanKey := host.CleanPacketCommitmentKey(c14Name, self)
